@@ -19,7 +19,7 @@ ASSUMPTIONS = ["'equal' is numpy's ==: -0.0 and 0.0 may share a run; NaN never e
 ANCHORS = ["runlengtharray.py::RunLengthArray.from_array", "runlengtharray.py::RunLengthArray.to_array", "runlengtharray.py::RunLengthArray.__init__",
            "runlengtharray.py::RunLengthArray.remove_empty_intervals", "runlengtharray.py::RunLengthArray.join_runs",
            "util.py::unsafe_extend_left", "util.py::unsafe_extend_right", "runlengtharray.py::RunLengthArray.__array__"]
-KINDS = ["encode", "slice", "ufunc2", "unary", "scalar", "concat", "slice_derived"]
+KINDS = ["encode", "slice", "ufunc2", "ufunc2_derived", "unary", "scalar", "concat", "slice_derived"]
 FLOOR_TAGS = ["k:" + k for k in KINDS] + ["style:" + s for s in rl.STYLES] + ["kind:b", "kind:i", "kind:u", "kind:f", "dt:float16", "v:nonfinite", "slice:stepped", "slice:unit",
                                                                               "adjacent-inf", "adjacent-nan"]
 FLOOR_MONITORS = ["c14:roundtrip", "c14:canonical", "c14:joined", "c14:decode-independent", "inv:rla"]
@@ -109,6 +109,15 @@ def run(case):
         exp = attempt(lambda: dense[s])
         a = attempt(lambda: src[s])
         what = "(%s of rla)[%s]" % (case["via"], short(s))
+    elif kind == "ufunc2_derived":
+        # two run-length operands that share their run boundaries because one was computed from the other
+        uf = getattr(np, case["uf"])
+        via = case["via"]
+        rw = r if via == "self" else ((r + 1) if (via == "plus1" and dt.kind != "b") else (r.astype(np.float64) if via == "astype" else np.logical_not(r) if dt.kind == "b" else r * 2))
+        exp = attempt(uf, r.to_array(), rw.to_array())
+        a = attempt(uf, r, rw)
+        joined = True
+        what = "%s(rla, %s of the same rla)" % (case["uf"], via)
     elif kind == "ufunc2":
         w = np.array(case["vals2"]).astype(case["dtype2"])
         uf = getattr(np, case["uf"])
@@ -178,6 +187,8 @@ def gen_case(rng, tier, kind=None, dtype=None, vclass=None, style=None):
         else:
             w, _ = rl.gen_runs(rng, dt2, "small", maxlen, length=L)
         c.update(vals2=np.asarray(w).tolist(), dtype2=dt2, uf=rng.choice(UF2), align=align)
+    elif kind == "ufunc2_derived":
+        c.update(uf=rng.choice(["subtract", "equal", "less", "bitwise_xor" if k in "iub" else "maximum", "minimum", "not_equal"]), via=rng.choice(["self", "plus1", "astype", "times2"]))
     elif kind == "unary":
         c["uf"] = rng.choice(["negative", "absolute", "logical_not", "square", "sign", "isnan"])
     elif kind == "scalar":
